@@ -274,7 +274,9 @@ func (p *Packet) Bytes() []byte {
 		exp = -11 // precise to 10 ps
 		period := math.Pow10(-int(exp)) / ts.Rate
 		denom = 1
-		for ; period > 65535; period *= 0.5 {
+		// denom is 16 bits wide: stop doubling there. (A rate of 0, e.g. a PacketTimestamp whose Rate was never
+		// set, gives an infinite period, which no amount of halving brings below 65535.)
+		for ; period > 65535 && denom < 1<<15; period *= 0.5 {
 			denom *= 2
 		}
 		num = uint16(math.Round(period))
